@@ -93,6 +93,10 @@ class _Resolver(ast.NodeTransformer):
     def visit_Lambda(self, n):
         return n
 
+    def visit_NamedExpr(self, n: ast.NamedExpr):
+        # the value of `(x := E)` is the value of E
+        return self.visit(n.value)
+
     def visit_Name(self, n: ast.Name):
         if not isinstance(n.ctx, ast.Load) or self.depth <= 0 or n.id in self.keep:
             return n
